@@ -121,9 +121,22 @@ fn gen_case(seed: u64, tier: Tier) -> Case {
 					continue;
 				}
 				touched.push(t);
-				Op::Pause {
+				let pause = Op::Pause {
 					track: t,
 					tween: *rng.pick(&[0.0, 0.0, 2.0 * unit, 6.0 * unit]),
+				};
+				if rng.chance(0.2) {
+					// pause and resume in this order between the same two callbacks: the resume
+					// is the last word (the opposite order is not generated: the two kinds travel
+					// in separate mailboxes and the audio thread reads the pause first)
+					ops.push(pause);
+					Op::Resume {
+						track: t,
+						at: ResumeAt::Now,
+						tween: *rng.pick(&[0.0, 2.0 * unit, 6.0 * unit]),
+					}
+				} else {
+					pause
 				}
 			}
 			6 if nt > 0 => {
@@ -870,7 +883,7 @@ impl Check for C12 {
 			assumptions: vec![
 				"a track's own timers (pause fade, resume delay) run only while every track above it is advancing; the model keeps a lower and an upper bound of that local time and only demands what both bounds agree on".into(),
 				"removal is demanded two callbacks after nothing keeps the track alive (one for pick-up, one for the removal of finished sounds); until then either outcome is accepted".into(),
-				"pause and resume of one track are not issued in the same gap".into(),
+				"pause and resume of one track are issued in the same gap only in that order (a resume followed by a pause would be read pause-first by the audio thread: the order of different command kinds within one gap is not transmitted)".into(),
 			],
 			components: vec![
 				("Track (pause / resume / should_be_removed / on_start_processing order), TrackHandle, TrackShared, PlaybackStateManager, Mixer, StaticSound start delay", "real"),
